@@ -810,6 +810,30 @@ pub fn run(args: &Args) {
       let u = crng.chance(2, 3);
       expect = Some(vec![u && n > groups]);
       vec![(p, if u { "u".to_string() } else { ["", "g"][crng.below(2)].to_string() })]
+    } else if kind < 2 && crng.chance(1, 2) {
+      // runs of `\u` escapes — lone lead / trail surrogates, pairs, BMP and braced escapes, literals — where a single
+      // code point is expected: group names, `\k<…>`, both ends of a class range, a bare atom (seed C12-7: a look-ahead for
+      // the second half of a pair that leaves the first half's value overwritten)
+      feats.push("kind=escape-run");
+      const ESC: &[&str] = &["\\uD83D", "\\uD800", "\\uDBFF", "\\uDE00", "\\uDC00", "\\u0041", "\\u0061", "\\u{41}", "\\u{61}", "\\u{1F600}", "\\u{D83D}", "a", "b", "\\u00", "\\u"];
+      let n = crng.range(1, 3);
+      let run: String = (0..n).map(|_| *crng.pick(ESC)).collect();
+      let p = match crng.below(8) {
+        0 => format!("(?<{}>x)", run),
+        1 => format!("(?<a{}>x)", run),
+        2 => format!("(?<{}>x)\\k<{}>", run, run),
+        3 => format!("[b-{}]", run),
+        4 => format!("[{}-b]", run),
+        5 => format!("[{}-{}]", crng.pick(ESC), run),
+        6 => run.clone(),
+        _ => format!("{}{{2}}", run),
+      };
+      let flags: &[&str] = match crng.below(3) {
+        0 => &["u"],
+        1 => &[""],
+        _ => &["u", "", "u"],
+      };
+      flags.iter().map(|f| (p.clone(), f.to_string())).collect()
     } else if kind < 2 {
       gen_history(&mut crng, &mut feats)
     } else if kind == 4 {
